@@ -1,4 +1,40 @@
-From AK Require Import Base.Prelude Bytes.FabHeaderProofs.
-Theorem C03_stub : forall z, Text.py_int (Text.str_of_Z z) = Some z.
-Proof. exact py_int_str_of_Z. Qed.
-Print Assumptions C03_stub.
+(* C03 - taste accepts every well-formed plotfile under every option
+   combination.  Statements only. *)
+From AK Require Import Base.Prelude Bytes.Text Bytes.FabHeader Bytes.BinFile
+  Reader.Select Reader.BoxRead Reader.Level Reader.ReadSpec
+  Plotfile.TextHeader Plotfile.HeaderSpec Taste.Taste Taste.TasteSpec Plotfile.Abstract
+  Taste.CompleteProofs.
+
+(* Full statement (all 16 option sets):
+     forall pf o limit lim, wf_plotfile pf -> eff_limit .. limit = Some lim -> 0 <= lim ->
+       taste_good o limit (pf_disk pf) = true.
+   It is FALSE of the pinned code: see C03_binary_data_refuted.  What holds: *)
+
+(* Completeness on the option sets that do not reach the binary-data branch
+   (10 of the 16 sets; the box-coordinate flag is not part of the modelled
+   verdict): every well-formed plotfile - any number of levels, boxes, any
+   box->file distribution and on-disk order - is accepted, for every
+   admissible level limit.  The verdict is the same function in failing and
+   non-failing mode (good = no raise / evaluates true). *)
+Theorem C03_complete_partial : forall (pf : plotfile) (o : topts) (limit : option Z) (lim : Z),
+  wf_plotfile pf ->
+  eff_limit (g_max_level (pf_g pf)) limit = Some lim -> 0 <= lim ->
+  (t_data o && negb (t_headers o && t_shape o)) = false ->
+  taste_good o limit (pf_disk pf) = true.
+Proof. exact taste_complete. Qed.
+Print Assumptions C03_complete_partial.
+
+(* The six remaining option sets reject EVERY directory, hence every
+   well-formed plotfile: the known finding of KNOWN_FINDINGS.txt
+   (key binary-data-branch).  Replayed on the implementation on every run. *)
+Theorem C03_binary_data_refuted : forall o limit d,
+  (t_data o && negb (t_headers o && t_shape o)) = true -> taste_good o limit d = false.
+Proof. exact taste_binary_data_branch. Qed.
+Print Assumptions C03_binary_data_refuted.
+
+(* The binary-shape walk accepts the image of any list of well-formed FABs
+   (the induction the completeness proof rests on). *)
+Theorem C03_sorted_by_offset_is_disk_order : forall l l',
+  Permutation.Permutation l l' -> Sorted.StronglySorted off_lt l' -> sort_by_off l = l'.
+Proof. exact sort_by_off_unique. Qed.
+Print Assumptions C03_sorted_by_offset_is_disk_order.
